@@ -125,7 +125,16 @@ def explore(ctx):
     model = ctx.model
     vr = model.cls("prop.vRecur")
     F = Findings()
+    variants = []
     for label, spec in rules():
+        variants.append((label, spec, "keywords"))
+    # the same parts supplied as a mapping and by item assignment (scalars stay scalars)
+    for label, spec in rules():
+        if any(isinstance(v, (int, str)) and not isinstance(v, bool) for _, v in spec) and \
+                ("=" in label and "list" not in label or label.startswith("combination 1")):
+            variants.append((label + " (mapping argument)", spec, "mapping"))
+            variants.append((label + " (item assignment)", spec, "items"))
+    for label, spec, mode in variants:
         F.n += 1
         it = CodecInterp(model)
         try:
@@ -133,7 +142,14 @@ def explore(ctx):
             for part, v in spec:
                 kwargs[part] = list(v) if isinstance(v, list) else v
             try:
-                rule = it.instantiate(vr, [], dict(kwargs))
+                if mode == "keywords":
+                    rule = it.instantiate(vr, [], dict(kwargs))
+                elif mode == "mapping":
+                    rule = it.instantiate(vr, [dict(kwargs)], {})
+                else:
+                    rule = it.instantiate(vr, [], {})
+                    for k_, v_ in kwargs.items():
+                        it.setitem(rule, k_, v_)
                 raw = it.call(it.getattr(rule, "to_ical"), [], {})
             except AbsRaise as e:
                 F.add("encodes", f"a rule with {', '.join(p for p, _ in spec)} cannot be built / encoded "
@@ -211,6 +227,42 @@ def explore(ctx):
                       text=shown)
         except Unsupported as e:
             raise AnalysisError(f"vRecur leaves the abstract interface on rule [{label}]: {e}")
+    # what the decoder returns is the caller's: editing it must not change a later decode
+    for text in ("FREQ=WEEKLY;BYDAY=MO,TU;BYHOUR=0,12", "FREQ=YEARLY;BYMONTH=5L,6;COUNT=3"):
+        F.n += 1
+        it = CodecInterp(model)
+        try:
+            frm = it.getattr(ClassVal(vr), "from_ical")
+            first = it.call(frm, [text], {})
+            before = {k: [norm(it, x) for x in (v if isinstance(v, list) else [v])]
+                      for k, v in first.items.items()}
+            for k, v in list(first.items.items()):
+                if isinstance(v, list):
+                    v.append(v[0])
+            second = it.call(frm, [text], {})
+            after = {k: [norm(it, x) for x in (v if isinstance(v, list) else [v])]
+                     for k, v in second.items.items()}
+            if after != before:
+                F.add("history", "decoding the same rule text again gives other values after the first "
+                      "result was edited in place (decoded value lists are shared with a cache)",
+                      text=text, first=repr(before), second=repr(after))
+            # and an encoded rule follows in-place edits of its value lists
+            third = it.call(frm, [text], {})
+            t1 = it.call(it.getattr(third, "to_ical"), [], {})
+            for k, v in list(third.items.items()):
+                if isinstance(v, list) and len(v) > 1:
+                    v.pop()
+            t2 = it.call(it.getattr(third, "to_ical"), [], {})
+            fresh = it.call(it.getattr(it.call(frm, [t2.decode() if isinstance(t2, bytes) else t2], {}),
+                                       "to_ical"), [], {})
+            if t2 == t1 or t2 != fresh:
+                F.add("history", "encoding a rule again after its value lists were edited in place gives "
+                      "the text of the earlier state", text=text,
+                      after_edit=describe(t2.decode() if isinstance(t2, bytes) else str(t2)))
+        except AbsRaise as e:
+            F.add("history", f"decoding / re-encoding a rule twice raises {e.cls_name}", text=text)
+        except Unsupported as e:
+            raise AnalysisError(f"vRecur history check leaves the abstract interface: {e}")
     # reader on RFC texts (independent of the writer)
     texts = [("FREQ=DAILY;COUNT=10", ["FREQ", "COUNT"]),
              ("FREQ=WEEKLY;UNTIL=" + "YYYYMMDDThhmmssZ;WKST=SU;BYDAY=TU,TH", ["FREQ", "UNTIL", "WKST", "BYDAY"]),
@@ -248,7 +300,7 @@ def spec_v(spec, part):
 
 
 LAWS = ["encodes", "grammar", "FREQ first", "every part", "values", "decodes", "same order",
-        "typed values", "stable", "reader"]
+        "typed values", "stable", "history", "reader"]
 _CACHE = {}
 
 
